@@ -121,6 +121,27 @@ func Assert(c bool, label string) {
 	}
 }
 
+// All/Any/Not/Implies are non-short-circuit boolean connectives: under the
+// engine they build one term instead of forking the path per operand.
+func All(cs ...bool) bool {
+	for _, c := range cs {
+		if !c {
+			return false
+		}
+	}
+	return true
+}
+func Any(cs ...bool) bool {
+	for _, c := range cs {
+		if c {
+			return true
+		}
+	}
+	return false
+}
+func Not(c bool) bool           { return !c }
+func Implies(a, b bool) bool    { return !a || b }
+func Pure(fn string)            {}
 func Reach(label string)        {}
 func Tag(key string, val any)   {}
 func Quiesce()                  { quiesceNative() }
